@@ -19,6 +19,51 @@ def containers(s):
     return out
 
 
+def deep_paths(fields, vals, prefix=()):
+    """paths (tuples of field indices) to present tagged fields behind a delimiting length, at any nesting depth
+    (through Options, not through Vecs)"""
+    for i, (f, v) in enumerate(zip(fields, vals)):
+        if f["tag"] is None or f["length"] in ("LEmpty", "LTemperature"):
+            continue
+        ty = f["ty"]
+        if ty["k"] == "opt":
+            if v is None:
+                continue
+            ty, v = ty["t"], v[1]
+        if ty["k"] == "vec" or (ty["k"] == "prim" and ty["p"] == "Bytes" and len(v[1]) == 0):
+            continue
+        yield prefix + (i,)
+        if ty["k"] == "struct":
+            for p in deep_paths(ty["fields"], v[1], prefix + (i,)):
+                yield p
+
+
+def enc_path(fields, vals, path, junk):
+    """the fields of one container with field path[0] moved to the end of its container (tagged fields may come in any
+    order) and, at the innermost level, `junk` placed right behind it INSIDE that container"""
+    i = path[0]
+    pre = b"".join(layouts.enc_field(f, f["ty"], v) for j, (f, v) in enumerate(zip(fields, vals)) if j != i)
+    f, v = fields[i], vals[i]
+    if len(path) == 1:
+        return pre + layouts.enc_field(f, f["ty"], v) + junk
+    ty = f["ty"]
+    if ty["k"] == "opt":
+        ty, v = ty["t"], v[1]
+    inner = enc_path(ty["fields"], v[1], path[1:], junk)
+    return pre + layouts.tag_bytes(f["tag"]) + layouts.len_prefix(f["length"], len(inner)) + inner
+
+
+def tags_along(fields, vals, path):
+    ks = set(known_tags(fields))
+    if len(path) > 1:
+        f, v = fields[path[0]], vals[path[0]]
+        ty = f["ty"]
+        if ty["k"] == "opt":
+            ty, v = ty["t"], v[1]
+        ks |= tags_along(ty["fields"], v[1], path[1:])
+    return ks
+
+
 def check(run):
     proof_part(run, "C14")
     L = layouts.load()
@@ -70,6 +115,32 @@ def check(run):
                 cases.append("dec\t%s\t%s" % (s["name"], ref.hex())); meta.append((None, "", s["name"]))
                 cases.append("dec\t%s\t%s" % (s["name"], pkt.hex())); meta.append((base, junk.hex(), s["name"]))
                 nested += 1
+    # the same at ANY nesting depth: foreign bytes right behind a field INSIDE its (nested) container, that field moved to
+    # the end of the container (round-2 seeded change C14-feig-payload-swallows-siblings)
+    deep = 0
+    for s in cmds:
+        for _ in range(12 if th else 4):
+            v, b = layouts.gen_struct_value(rng, s, absent_pos=False)
+            paths = [p for p in deep_paths(s["fields"], v[1]) if len(p) >= 2]
+            if not paths:
+                continue
+            for path in rng.sample(paths, min(len(paths), 6 if th else 3)):
+                kt = tags_along(s["fields"], v[1], path)
+                unknown = [t for t in range(1, 255) if t not in kt and t not in (0x1f, 0xff)]
+                junk = bytes([rng.choice(unknown)]) + bytes(rng.randrange(256) for _ in range(rng.randrange(0, 6)))
+                try:
+                    body, whole = enc_path(s["fields"], v[1], path, b""), enc_path(s["fields"], v[1], path, junk)
+                    if len(whole) > 60000:
+                        continue
+                    ref = bytes(s["control"]) + layouts.len_prefix("LAdpu", len(body)) + body
+                    pkt = bytes(s["control"]) + layouts.len_prefix("LAdpu", len(whole)) + whole
+                except ValueError:
+                    continue
+                base = len(cases)
+                cases.append("dec\t%s\t%s" % (s["name"], ref.hex())); meta.append((None, "", s["name"]))
+                cases.append("dec\t%s\t%s" % (s["name"], pkt.hex())); meta.append((base, junk.hex(), s["name"]))
+                deep += 1
+    run.coverage["deep_nested_cases"] = deep
     mo = vlib.run_sharded(drv, cases, run.workdir, "c14_model")
     io = vlib.run_sharded(codec, cases, run.workdir, "c14_impl")
     diffs = []
